@@ -243,7 +243,7 @@ func c02SpendsRecorded(c *Ctx, ge *GuardEngine) {
 		}
 		cr := CallReq{ID: r.id, Entry: r.entry, Callee: isSpendRecorder, CalleeDesc: "a spend/resolve recorder", Args: map[int]string{1: pat(r.arg)}, Clause: "applying a transaction records every spent/resolved parent"}
 		if r.id == "v1:ExpiringFileContracts" {
-			cr.Ctx = pats("call (consensus.MidState).isSpent(…ExpiringFileContracts[*].ID) is false")
+			cr.Ctx = []string{notSpentPat("…ExpiringFileContracts[*].ID")}
 		}
 		CheckCallReq(c, "spend-applied", cr, cs)
 	}
@@ -253,7 +253,7 @@ func c02SpendsRecorded(c *Ctx, ge *GuardEngine) {
 		for _, cf := range cs {
 			if isSpendRecorder(cf.Callee) && len(cf.Args) > 1 && strings.Contains(cf.Args[1], "ExpiringFileContracts[*]") {
 				for _, cx := range cf.Ctx {
-					if regexp.MustCompile(pat("call (consensus.MidState).isSpent(…ExpiringFileContracts[*].ID) is false")).MatchString(cx) {
+					if regexp.MustCompile(notSpentPat("…ExpiringFileContracts[*].ID")).MatchString(cx) {
 						found = true
 					}
 				}
